@@ -1391,12 +1391,24 @@ theorem runToks_Rn (hvt : VtLossless vt) (m : List Bytes) (p1 a : Bytes) (rest :
 
 /-! ### glue: the chain model fed the whole document as one chunk -/
 
-/-- one html stage processes the whole input `x` in one `filter` call, emits `y` and holds nothing afterwards -/
+/-- one html stage processes the whole input `x` in one `filter` call, emits `y` and holds nothing afterwards.
+Since fe7eac6 `filter` runs the STREAM tokenizer (`new_fragment(data, last_context)`, here with the empty context of a
+fresh stage) and stops at the first token that the end of the data cut short (`isCut`): none may be. -/
 structure StageOK (v : Visitor) (x y : Bytes) : Prop where
   utf8 : utf8Split x = some (x, [])
-  rest : (tk x).2 = []
-  noHeld : splitHeld (tk x).1 = ((tk x).1, [])
-  run : ∃ s, (tk x).1.foldl (stepTok tk ev) (HtmlSt.new v, []) = (s, y) ∧ s.stack = []
+  rest : (tk.stream [] x).2.1 = []
+  noCut : ∀ t ∈ (tk.stream [] x).1, isCut t = false
+  noHeld : splitHeld (toksOf (tk.stream [] x).1) = (toksOf (tk.stream [] x).1, [])
+  run : ∃ s, (toksOf (tk.stream [] x).1).foldl (stepTok tk ev) (HtmlSt.new v, []) = (s, y) ∧ s.stack = []
+
+theorem cutSplit_of_noCut : ∀ (xs : List TokX), (∀ t ∈ xs, isCut t = false) → cutSplit xs = (xs, [])
+  | [], _ => rfl
+  | x :: xs, h => by
+    have ih := cutSplit_of_noCut xs (fun t ht => h t (List.mem_cons_of_mem _ ht))
+    have hx : isCut x = false := h x (by simp)
+    unfold cutSplit at ih ⊢
+    simp only [Prod.mk.injEq] at ih
+    simp [List.takeWhile_cons, List.dropWhile_cons, hx, ih.1, ih.2]
 
 /-- a stage that holds nothing: `end()` returns nothing -/
 def CleanStage (st : Stage Unit Unit) : Prop :=
@@ -1407,18 +1419,20 @@ def CleanStage (st : Stage Unit Unit) : Prop :=
 theorem stage_filter_ok {v : Visitor} {x y : Bytes} (h : StageOK tk ev v x y) :
     ∃ s', filterHtml tk ev (HtmlSt.new v) x = some (s', y) ∧ endHtml s' = [] := by
   obtain ⟨s, hrun, hst⟩ := h.run
-  refine ⟨{ s with last := [] }, ?_, ?_⟩
-  · unfold filterHtml
+  have hcs := cutSplit_of_noCut (tk.stream [] x).1 h.noCut
+  have hv1 : (view tk [] x).todo = toksOf (tk.stream [] x).1 := by
+    unfold view
+    simp only [hcs, List.isEmpty_nil, if_true, h.noHeld]
+  have hv2 : (view tk [] x).tail = [] := by
+    unfold view
+    simp only [hcs, List.isEmpty_nil, if_true, h.noHeld, h.rest]
+    simp [toksOf, rawsOf]
+  refine ⟨{ s with last := [], ctx := (view tk [] x).ctx' }, ?_, ?_⟩
+  · rw [filterHtml_view]
     have hl : (HtmlSt.new v).last = [] := rfl
-    rw [hl, List.nil_append, h.utf8]
-    simp only
-    have hr := h.rest
-    have hh := h.noHeld
-    generalize htk : tk x = r at hr hh hrun
-    obtain ⟨ts, rest⟩ := r
-    simp only at hr hh hrun
-    subst hr
-    simp only [hh, hrun, List.append_nil]
+    have hc : (HtmlSt.new v).ctx = [] := rfl
+    rw [hl, hc, List.nil_append, h.utf8]
+    simp only [hv1, hv2, hrun, List.append_nil]
   · simp [endHtml, hst]
 
 /-- the stages of a list of visitors -/
@@ -1525,17 +1539,20 @@ theorem chain_new_html (lower : String → String) :
 
 /-! ### from the token-level specifications to `StageOK` -/
 
-/-- the tokenizer sees the serialised document as its token list, the bytes are valid UTF-8 and the last
-token is not a text holding `<` (which `filter` would keep back until `end`) -/
+/-- the stream tokenizer (fresh stage: empty context) sees the serialised document as its token list, leaves nothing,
+no token is cut short by the end of the data (a final plain text does not count: `isCut`), the bytes are valid UTF-8
+and the last token is not a text holding `<` (which `filter` would keep back until `end`) -/
 structure TokAgree (doc : List Node) : Prop where
-  toks : tk (serializeList doc) = (tokensOfList vt doc, [])
+  toks : toksOf (tk.stream [] (serializeList doc)).1 = tokensOfList vt doc
+  rest : (tk.stream [] (serializeList doc)).2.1 = []
+  noCut : ∀ x ∈ (tk.stream [] (serializeList doc)).1, isCut x = false
   utf8 : utf8Split (serializeList doc) = some (serializeList doc, [])
   noHeld : splitHeld (tokensOfList vt doc) = (tokensOfList vt doc, [])
 
 theorem stageOK_of_fold {v : Visitor} {doc : List Node} {s : HtmlSt} {y : Bytes} (ha : TokAgree tk vt doc)
     (hf : (tokensOfList vt doc).foldl (stepTok tk ev) (HtmlSt.new v, []) = (s, y)) (hs : s.stack = []) :
     StageOK tk ev v (serializeList doc) y := by
-  refine ⟨ha.utf8, by rw [ha.toks], by rw [ha.toks]; exact ha.noHeld, ⟨s, by rw [ha.toks]; exact hf, hs⟩⟩
+  refine ⟨ha.utf8, ha.rest, ha.noCut, by rw [ha.toks]; exact ha.noHeld, ⟨s, by rw [ha.toks]; exact hf, hs⟩⟩
 
 /-- the domain of one filter on one document, by action -/
 inductive InDomain (doc : List Node) : BodyFilter → Prop where
@@ -2053,14 +2070,16 @@ theorem inDomainB_sound {doc : List Node} {f : BodyFilter} (h : inDomainB tk vt 
           · rw [if_neg h3] at h; cases h
 
 def tokAgreeB (doc : List Node) : Bool :=
-  decide (tk (serializeList doc) = (tokensOfList vt doc, [])) &&
+  decide (toksOf (tk.stream [] (serializeList doc)).1 = tokensOfList vt doc) &&
+  decide ((tk.stream [] (serializeList doc)).2.1 = []) &&
+  (tk.stream [] (serializeList doc)).1.all (fun x => !isCut x) &&
   decide (utf8Split (serializeList doc) = some (serializeList doc, [])) &&
   decide (splitHeld (tokensOfList vt doc) = (tokensOfList vt doc, []))
 
 theorem tokAgreeB_sound {doc : List Node} (h : tokAgreeB tk vt doc = true) : TokAgree tk vt doc := by
   unfold tokAgreeB at h
-  simp only [Bool.and_eq_true, decide_eq_true_eq] at h
-  exact ⟨h.1.1, h.1.2, h.2⟩
+  simp only [Bool.and_eq_true, decide_eq_true_eq, List.all_eq_true, Bool.not_eq_true'] at h
+  exact ⟨h.1.1.1.1, h.1.1.1.2, h.1.1.2, h.1.2, h.2⟩
 
 /-- the executable check of `StepsOK` -/
 def stepsOKB : List Node → List BodyFilter → Bool
